@@ -8,7 +8,10 @@ returned 0, `Res.ub` = the C aborts / executes undefined behaviour / does not te
 
 Statements are unbounded in their quantifiers (all integers, all primes, all byte streams, all matrices).
 Where the full-strength statement is false of the code the negation is proved with a witness that is replayed
-on the real code by the check (see notes/C17.md).
+on the real code by the check (see notes/C17.md).  Three such defects (rand_interval shift by 64, sqrt_mod_p for
+a ≡ 0 and p = 2, cornacchia_special_prime with p | n) have been REPAIRED in /repo ("fix:" commits); the models below
+describe the repaired code and the corresponding theorems are at full strength.  The pre-fix negation witnesses are
+history (notes/C17.md) and live on as corpus inputs, so a reverted fix is reported as a VIOLATION.
 -/
 import SqiProofs.C17.Div
 import SqiProofs.C17.Gcd
@@ -96,14 +99,12 @@ theorem crt_spec (a b ma mb : Int) (hcop : Int.gcd ma mb = 1) (hma : ma ≠ 0) (
   crt_spec' a b ma mb hcop hma hmb
 example : ibzCrt 2 3 5 7 = 17 ∧ Int.gcd 5 7 = 1 := by decide
 
-/-! ## 3. Square roots modulo a prime — every prime, every class mod 8, and p = 2
+/-! ## 3. Square roots modulo a prime — every prime, every class mod 8, and p = 2 (repaired code, full strength)
 
-Full-strength statement (FALSE of the code):
-  `∀ p prime, ∀ a, (∀ r, sqrt_mod_p a p = ok r → r² ≡ a (mod p)) ∧ (IsSquare (a : ZMod p) → ∃ r, sqrt_mod_p a p = ok r)`.
-The first conjunct holds for every prime (`sqrt_mod_p_sound`).  The second fails in exactly two ways, both proved
-below and replayed on the real code: a ≡ 0 (mod p) is reported as a non-square (`sqrt_mod_p_zero_fails`), and for
-p = 2 the routine never returns a root (`sqrt_mod_p_two`: failure for even a, GMP abort for odd a).
-`sqrt_mod_p_complete_partial` is the second conjunct under the hypotheses p ≠ 2, a ≢ 0. -/
+`∀ p prime, ∀ a : (∀ r, sqrt_mod_p a p = ok r → 0 ≤ r < p ∧ r² ≡ a (mod p)) ∧ (IsSquare (a : ZMod p) ↔ ∃ r, sqrt_mod_p a p = ok r)`
+and the routine never aborts.  (Before the fix the ⇐ direction failed for a ≡ 0 and for p = 2, see notes.) -/
+
+private theorem zmod2_isSquare (x : ZMod 2) : IsSquare x := ⟨x, by revert x; decide⟩
 
 /-- soundness for EVERY prime p (p ≡ 1, 3, 5, 7 mod 8 and p = 2) and every integer a -/
 theorem sqrt_mod_p_sound (pn : Nat) (hp : pn.Prime) (a r : Int) (h : ibzSqrtModP a pn = .ok r) :
@@ -111,94 +112,146 @@ theorem sqrt_mod_p_sound (pn : Nat) (hp : pn.Prime) (a r : Int) (h : ibzSqrtModP
   haveI := Fact.mk hp
   by_cases hp2 : pn = 2
   · subst hp2
-    have := sqrtModP_two a
-    rw [show ((2 : Nat) : Int) = 2 from rfl] at h
-    rw [this] at h; split at h <;> exact absurd h (by simp)
-  · by_cases hj : ((a : ZMod pn)) ^ (pn / 2) = 1
-    · obtain ⟨r', h1, h2, h3, h4⟩ := sqrtModP_ok_of_jacobi pn hp2 a hj
-      rw [h1] at h; injection h with h; subst h
-      refine ⟨h2, h3, ?_⟩
-      apply Int.emod_eq_zero_of_dvd
-      rw [← ZMod.intCast_zmod_eq_zero_iff_dvd]
-      push_cast; rw [← pow_two, h4, sub_self]
-    · rw [sqrtModP_fail_of_jacobi pn hp2 a hj] at h; exact absurd h (by simp)
+    rw [show ((2 : Nat) : Int) = 2 from rfl, sqrtModP_two a] at h
+    injection h with h; subst h
+    have hp : ∀ z : Int, (z * z) % 2 = z % 2 := by
+      intro z; rw [Int.mul_emod]; rcases Int.emod_two_eq_zero_or_one z with h | h <;> rw [h] <;> rfl
+    have := hp (a % 2)
+    refine ⟨by omega, by omega, ?_⟩
+    show (a % 2 * (a % 2) - a) % ((2 : Nat) : Int) = 0
+    omega
+  · by_cases h0 : (a : ZMod pn) = 0
+    · rw [sqrtModP_zero pn a h0] at h
+      injection h with h; subst h
+      refine ⟨le_refl _, by exact_mod_cast hp.pos, ?_⟩
+      have := (ZMod.intCast_zmod_eq_zero_iff_dvd a pn).mp h0
+      simp only [Int.mul_zero, Int.zero_sub]
+      exact Int.emod_eq_zero_of_dvd ((Int.dvd_neg).mpr this)
+    · by_cases hj : ((a : ZMod pn)) ^ (pn / 2) = 1
+      · obtain ⟨r', h1, h2, h3, h4⟩ := sqrtModP_ok_of_jacobi pn hp2 a hj
+        rw [h1] at h; injection h with h; subst h
+        refine ⟨h2, h3, ?_⟩
+        apply Int.emod_eq_zero_of_dvd
+        rw [← ZMod.intCast_zmod_eq_zero_iff_dvd]
+        push_cast; rw [← pow_two, h4, sub_self]
+      · rw [sqrtModP_fail_of_jacobi pn hp2 a h0 hj] at h; exact absurd h (by simp)
 
-/-- completeness for every odd prime and every non-zero square (Euler's criterion + Tonelli–Shanks invariant) -/
-theorem sqrt_mod_p_complete_partial (pn : Nat) (hp : pn.Prime) (hp2 : pn ≠ 2) (a : Int)
-    (h0 : (a : ZMod pn) ≠ 0) (hsq : IsSquare (a : ZMod pn)) : ∃ r, ibzSqrtModP a pn = .ok r := by
+/-- completeness for EVERY prime (incl. 2) and EVERY square (incl. a ≡ 0): Euler's criterion + Tonelli–Shanks invariant -/
+theorem sqrt_mod_p_complete (pn : Nat) (hp : pn.Prime) (a : Int) (hsq : IsSquare (a : ZMod pn)) :
+    ∃ r, ibzSqrtModP a pn = .ok r := by
   haveI := Fact.mk hp
-  obtain ⟨r, h, _⟩ := sqrtModP_ok_of_jacobi pn hp2 a ((ZMod.euler_criterion pn h0).mp hsq)
-  exact ⟨r, h⟩
+  by_cases hp2 : pn = 2
+  · subst hp2; exact ⟨a % 2, sqrtModP_two a⟩
+  · by_cases h0 : (a : ZMod pn) = 0
+    · exact ⟨0, sqrtModP_zero pn a h0⟩
+    · obtain ⟨r, h, _⟩ := sqrtModP_ok_of_jacobi pn hp2 a ((ZMod.euler_criterion pn h0).mp hsq)
+      exact ⟨r, h⟩
 
-/-- for an odd prime the routine returns 0 exactly on non-squares and on a ≡ 0; it never aborts -/
-theorem sqrt_mod_p_fail_iff (pn : Nat) (hp : pn.Prime) (hp2 : pn ≠ 2) (a : Int) :
-    (ibzSqrtModP a pn = .fail ↔ ((a : ZMod pn) = 0 ∨ ¬ IsSquare (a : ZMod pn))) ∧ ibzSqrtModP a pn ≠ .ub := by
+/-- the return value decides squareness, for every prime; the routine never aborts -/
+theorem sqrt_mod_p_fail_iff (pn : Nat) (hp : pn.Prime) (a : Int) :
+    (ibzSqrtModP a pn = .fail ↔ ¬ IsSquare (a : ZMod pn)) ∧ ibzSqrtModP a pn ≠ .ub := by
   haveI := Fact.mk hp
-  by_cases hj : ((a : ZMod pn)) ^ (pn / 2) = 1
-  · obtain ⟨r, h, _⟩ := sqrtModP_ok_of_jacobi pn hp2 a hj
-    have h0 : (a : ZMod pn) ≠ 0 := by
-      intro h0; rw [h0, zero_pow (by have := hp.two_le; omega)] at hj; exact zero_ne_one hj
-    refine ⟨?_, by rw [h]; simp⟩
-    rw [h]; simp only [reduceCtorEq, false_iff, not_or, not_not]
-    exact ⟨h0, (ZMod.euler_criterion pn h0).mpr hj⟩
-  · have hf := sqrtModP_fail_of_jacobi pn hp2 a hj
-    refine ⟨?_, by rw [hf]; simp⟩
-    rw [hf]; simp only [true_iff]
-    by_cases h0 : (a : ZMod pn) = 0
-    · exact Or.inl h0
-    · exact Or.inr (fun hs => hj ((ZMod.euler_criterion pn h0).mp hs))
+  by_cases hsq : IsSquare (a : ZMod pn)
+  · obtain ⟨r, h⟩ := sqrt_mod_p_complete pn hp a hsq
+    rw [h]; simp [hsq]
+  · have hp2 : pn ≠ 2 := by
+      rintro rfl
+      apply hsq
+      exact zmod2_isSquare _
+    have h0 : (a : ZMod pn) ≠ 0 := by intro h0; apply hsq; rw [h0]; exact ⟨0, by simp⟩
+    have hj : ((a : ZMod pn)) ^ (pn / 2) ≠ 1 := fun hj => hsq ((ZMod.euler_criterion pn h0).mpr hj)
+    rw [sqrtModP_fail_of_jacobi pn hp2 a h0 hj]; simp [hsq]
 
-/-- NEGATION of completeness, part 1: 0 is a square but is reported as "no square root", for every odd prime -/
-theorem sqrt_mod_p_zero_fails (pn : Nat) (hp : pn.Prime) (hp2 : pn ≠ 2) (a : Int) (h0 : (a : ZMod pn) = 0) :
-    ibzSqrtModP a pn = .fail ∧ IsSquare (a : ZMod pn) :=
-  ⟨((sqrt_mod_p_fail_iff pn hp hp2 a).1).mpr (Or.inl h0), ⟨0, by rw [h0]; simp⟩⟩
-example : ibzSqrtModP 17 17 = .fail := by decide
-
-/-- NEGATION of completeness, part 2 (p = 2): failure for even a, abort inside GMP for odd a; never a root -/
-theorem sqrt_mod_p_two (a : Int) : ibzSqrtModP a 2 = if a % 2 = 0 then .fail else .ub := sqrtModP_two a
-example : ibzSqrtModP 1 2 = .ub ∧ IsSquare (1 : ZMod 2) := ⟨by decide, ⟨1, by decide⟩⟩
-
--- non-vacuity: one prime of every class mod 8, a deep Tonelli–Shanks prime (p − 1 = 3·2^30), and a scheme prime
+-- non-vacuity: one prime of every class mod 8, p = 2, a ≡ 0, a deep Tonelli–Shanks prime (p − 1 = 3·2^30), a scheme prime
 example : ibzSqrtModP 2 17 = .ok 6 ∧ ibzSqrtModP 2 7 = .ok 4 ∧ ibzSqrtModP 3 11 = .ok 5 ∧ ibzSqrtModP 4 13 = .ok 11 ∧
-    ibzSqrtModP 5 29 = .ok 18 := by decide
+    ibzSqrtModP 5 29 = .ok 18 ∧ ibzSqrtModP 17 17 = .ok 0 ∧ ibzSqrtModP 1 2 = .ok 1 ∧ ibzSqrtModP 3 7 = .fail := by decide
 example : ibzSqrtModP 2 3221225473 = .ok 1576605034 := by decide +kernel
 example : (SqiGen.L1.FP_p).Prime ∧ SqiGen.L1.FP_p % 8 = 7 := ⟨SqiProofs.Primes.L1_prime, by decide +kernel⟩
 
-/-- `ibz_sqrt_mod_2p` for an odd prime p: succeeds exactly when `ibz_sqrt_mod_p` does, and the result is a square
-    root of a modulo 2p -/
-theorem sqrt_mod_2p_spec (pn : Nat) (hp : pn.Prime) (hp2 : pn ≠ 2) (a r : Int) (h : ibzSqrtMod2P a pn = .ok r) :
+/-- `ibz_sqrt_mod_2p`, EVERY prime p (for p = 2 the modulus is 4): a returned value is a square root of a modulo 2p -/
+theorem sqrt_mod_2p_sound (pn : Nat) (hp : pn.Prime) (a r : Int) (h : ibzSqrtMod2P a pn = .ok r) :
     (r * r - a) % (2 * pn) = 0 := by
   unfold ibzSqrtMod2P at h
   split at h
   · rename_i r0 hr0
-    obtain ⟨_, _, h3⟩ := sqrt_mod_p_sound pn hp a r0 hr0
-    have hodd : (pn : Int) % 2 = 1 := by
-      rcases hp.eq_two_or_odd with h | h
-      · exact absurd h hp2
-      · omega
-    have hpar : ∀ z : Int, (z * z) % 2 = z % 2 := by
-      intro z; rw [Int.mul_emod]; rcases Int.emod_two_eq_zero_or_one z with h | h <;> rw [h] <;> rfl
-    have hdp : (pn : Int) ∣ r * r - a ∧ r % 2 = a % 2 := by
+    obtain ⟨hr1, hr2, h3⟩ := sqrt_mod_p_sound pn hp a r0 hr0
+    by_cases hp2 : pn = 2
+    · subst hp2
+      rw [show ((2 : Nat) : Int) = 2 from rfl] at h hr0 hr2 ⊢
+      rw [sqrtModP_two a] at hr0; injection hr0 with hr0; subst hr0
       split at h
-      · rename_i hne
-        injection h with h; subst h
-        refine ⟨?_, by omega⟩
-        have : (r0 + ↑pn) * (r0 + ↑pn) - a = (r0 * r0 - a) + ↑pn * (2 * r0 + ↑pn) := by ring
-        rw [this]; exact Int.dvd_add (Int.dvd_of_emod_eq_zero h3) (Dvd.intro _ rfl)
-      · rename_i heq
-        injection h with h; subst h
-        exact ⟨Int.dvd_of_emod_eq_zero h3, by omega⟩
-    have hd2 : (2 : Int) ∣ r * r - a := by
-      apply Int.dvd_of_emod_eq_zero
-      have := hpar r; omega
-    have hcop : IsCoprime (2 : Int) (pn : Int) := by
-      rw [Int.isCoprime_iff_gcd_eq_one]
-      have : Nat.Coprime 2 pn := (Nat.coprime_primes Nat.prime_two hp).mpr (Ne.symm hp2)
-      simpa [Int.gcd] using this
-    exact Int.emod_eq_zero_of_dvd (hcop.mul_dvd hd2 hdp.1)
+      · exact absurd h (by simp)
+      · rename_i hlt
+        have hr : r = a % 2 := by
+          split at h
+          · omega
+          · injection h with h; exact h.symm
+        subst hr
+        have ha : a % 4 = 0 ∨ a % 4 = 1 := by omega
+        rcases ha with ha | ha
+        · have : a % 2 = 0 := by omega
+          rw [this]; omega
+        · have : a % 2 = 1 := by omega
+          rw [this]; omega
+    · have hne : ¬ ((pn : Int) = 2 ∧ a % 4 ≥ 2) := fun hh => hp2 (by exact_mod_cast hh.1)
+      rw [if_neg hne] at h
+      have hodd : (pn : Int) % 2 = 1 := by
+        rcases hp.eq_two_or_odd with h | h
+        · exact absurd h hp2
+        · omega
+      have hpar : ∀ z : Int, (z * z) % 2 = z % 2 := by
+        intro z; rw [Int.mul_emod]; rcases Int.emod_two_eq_zero_or_one z with h | h <;> rw [h] <;> rfl
+      have hdp : (pn : Int) ∣ r * r - a ∧ r % 2 = a % 2 := by
+        split at h
+        · rename_i hne
+          injection h with h; subst h
+          refine ⟨?_, by omega⟩
+          have : (r0 + ↑pn) * (r0 + ↑pn) - a = (r0 * r0 - a) + ↑pn * (2 * r0 + ↑pn) := by ring
+          rw [this]; exact Int.dvd_add (Int.dvd_of_emod_eq_zero h3) (Dvd.intro _ rfl)
+        · rename_i heq
+          injection h with h; subst h
+          exact ⟨Int.dvd_of_emod_eq_zero h3, by omega⟩
+      have hd2 : (2 : Int) ∣ r * r - a := by
+        apply Int.dvd_of_emod_eq_zero
+        have := hpar r; omega
+      have hcop : IsCoprime (2 : Int) (pn : Int) := by
+        rw [Int.isCoprime_iff_gcd_eq_one]
+        have : Nat.Coprime 2 pn := (Nat.coprime_primes Nat.prime_two hp).mpr (Ne.symm hp2)
+        simpa [Int.gcd] using this
+      exact Int.emod_eq_zero_of_dvd (hcop.mul_dvd hd2 hdp.1)
   · exact absurd h (by simp)
   · exact absurd h (by simp)
-example : ibzSqrtMod2P 2 7 = .ok 4 ∧ ibzSqrtMod2P 9 7 = .ok 11 := by decide
+
+/-- `ibz_sqrt_mod_2p` is complete for every prime: if a has a square root s modulo 2p, a root is returned -/
+theorem sqrt_mod_2p_complete (pn : Nat) (hp : pn.Prime) (a s : Int) (hs : (s * s - a) % (2 * pn) = 0) :
+    ∃ r, ibzSqrtMod2P a pn = .ok r := by
+  have hd : (2 * (pn : Int)) ∣ s * s - a := Int.dvd_of_emod_eq_zero hs
+  have hsq : IsSquare (a : ZMod pn) := by
+    refine ⟨(s : ZMod pn), ?_⟩
+    have : ((s * s - a : Int) : ZMod pn) = 0 := by
+      rw [ZMod.intCast_zmod_eq_zero_iff_dvd]; exact Dvd.dvd.trans (Dvd.intro_left _ rfl) hd
+    push_cast at this; exact (sub_eq_zero.mp this).symm
+  obtain ⟨r0, hr0⟩ := sqrt_mod_p_complete pn hp a hsq
+  unfold ibzSqrtMod2P
+  rw [hr0]
+  simp only
+  by_cases hbad : (pn : Int) = 2 ∧ a % 4 ≥ 2
+  · exfalso
+    obtain ⟨hp2, ha⟩ := hbad
+    rw [hp2] at hd
+    obtain ⟨m, hm⟩ := hd
+    rcases Int.emod_two_eq_zero_or_one s with h | h
+    · obtain ⟨k, hk⟩ : ∃ k, s = 2 * k := ⟨s / 2, by omega⟩
+      subst hk
+      have : a = 4 * (k * k) - 4 * m := by linear_combination -hm
+      omega
+    · obtain ⟨k, hk⟩ : ∃ k, s = 2 * k + 1 := ⟨s / 2, by omega⟩
+      subst hk
+      have : a = 4 * (k * k) + 4 * k + 1 - 4 * m := by linear_combination -hm
+      omega
+  · rw [if_neg hbad]; split <;> exact ⟨_, rfl⟩
+example : ibzSqrtMod2P 2 7 = .ok 4 ∧ ibzSqrtMod2P 9 7 = .ok 11 ∧ ibzSqrtMod2P 5 2 = .ok 1 ∧ ibzSqrtMod2P 3 2 = .fail ∧
+    ibzSqrtMod2P 14 7 = .ok 0 := by decide
 
 /-! ## 4. Digit-array conversions round-trip (and the missing bound check) -/
 
@@ -268,15 +321,16 @@ theorem rand_interval_range_c (a b : Int) (stream : List Nat) (r : Int) (rest : 
 example : ibzRandInterval 10 310 [7, 1] = .ok (10 + 7 + 256, []) ∧ ibzRandInterval 5 5 [1, 2] = .ok (5, []) ∧
     ibzRandInterval 0 255 [] = .fail := by decide
 
-/-- safety of the mask shift: `((mp_limb_t)-1) >> (64 − len_bits % 64)` is defined iff len_bits % 64 ≠ 0.
-    Full-strength safety ("never UB for a ≤ b") is FALSE: -/
-theorem rand_interval_shift_ok (a b : Int) (stream : List Nat) :
-    ibzRandInterval a b stream ≠ .ub ↔ (randParams a b).lenBits % 64 ≠ 0 := by
-  rw [ne_eq, randInterval_ub_iff]
-/-- negation witness (replayed under UBSan): a = 0, b = 2^64 − 1 -/
-theorem rand_interval_shift_ub_witness : ∀ stream, ibzRandInterval 0 (2 ^ 64 - 1) stream = .ub := by
-  intro stream; rw [randInterval_ub_iff]; decide
-example : (randParams 0 (2 ^ 64 - 2 ^ 32)).lenBits % 64 = 0 ∧ (randParams 0 (2 ^ 63 - 1)).lenBits % 64 ≠ 0 := by decide
+/-- safety (repaired code, full strength): the mask shift count is reduced modulo 64, so the call never executes
+    undefined behaviour, for EVERY interval (incl. widths whose bit length is a multiple of 64) and every stream.
+    (Before the fix: `ub` ⇔ len_bits % 64 = 0, witness a = 0, b = 2^64 − 1 — now a corpus input replayed under UBSan.) -/
+theorem rand_interval_never_ub (a b : Int) (stream : List Nat) : ibzRandInterval a b stream ≠ .ub :=
+  randInterval_ne_ub a b stream
+/-- the mask keeps exactly the `len_bits % 64` low bits of the top limb, and the whole limb when that is 0 -/
+theorem rand_interval_mask_value : ∀ k : Nat, k < 64 →
+    (2 ^ 64 - 1) / 2 ^ ((64 - k) % 64) = if k = 0 then 2 ^ 64 - 1 else 2 ^ k - 1 := mask_value
+example : ibzRandInterval 0 (2 ^ 64 - 1) [1, 2, 3, 4, 5, 6, 7, 8] = .ok (0x0807060504030201, []) ∧
+    (randParams 0 (2 ^ 64 - 1)).lenBits % 64 = 0 := by decide
 
 /-- `ibz_rand_interval_minm_m`: result in [−m, m] (0 ≤ m < 2^62) -/
 theorem rand_interval_minm_m_range (m : Int) (hm : 0 ≤ m ∧ m < 2 ^ 62) (stream : List Nat) (r : Int) (rest : List Nat)
@@ -303,18 +357,13 @@ theorem cornacchia_prime_sound (n p x y : Int) (h : ibzCornacchiaPrime n p = .ok
   cornacchiaPrime_sound n p x y h
 example : ibzCornacchiaPrime 1 29 = .ok (5, 2) ∧ ibzCornacchiaPrime 1 2 = .ok (1, 1) ∧ ibzCornacchiaPrime 2 7 = .fail := by decide
 
-/-- `ibz_cornacchia_special_prime` (x² + n·y² = 2^e·p): sound under the documented contract n ≡ 3 (mod 4)
-    and gcd(p, n) = 1.  Full strength (no coprimality hypothesis) is FALSE — next theorem. -/
-theorem cornacchia_special_prime_sound_partial (xy0 : Int × Int) (n p : Int) (e : Nat) (x y : Int)
-    (hn : n % 4 = 3) (hg : (Int.gcd p n : Int) = 1)
-    (h : ibzCornacchiaSpecialPrime xy0 n p e = .ok (x, y)) : x * x + n * (y * y) = p * 2 ^ e := by
-  apply cornacchiaSpecialPrime_sound xy0 n p e x y _ _ h
-  · rintro ⟨_, h1⟩; omega
-  · right; rw [(gcdext_spec p n).1]; exact hg
-/-- negation witness (replayed on the real code): p | n makes the routine return 1 with untouched outputs -/
-theorem cornacchia_special_prime_false_solution :
-    ibzCornacchiaSpecialPrime (0, 0) 7 7 1 = .ok (0, 0) ∧ (0 : Int) * 0 + 7 * (0 * 0) ≠ 7 * 2 ^ 1 := by decide
-example : ibzCornacchiaSpecialPrime (0, 0) 3 13 2 = .ok (7, 1) ∧ (3 : Int) % 4 = 3 ∧ Int.gcd 13 3 = 1 := by decide
+/-- `ibz_cornacchia_special_prime` (x² + n·y² = 2^e·p), repaired code: never a false solution under the documented
+    contract n ≡ 3 (mod 4) alone — no coprimality side condition any more (p | n now reports failure). -/
+theorem cornacchia_special_prime_sound (n p : Int) (e : Nat) (x y : Int) (hn : n % 4 = 3)
+    (h : ibzCornacchiaSpecialPrime n p e = .ok (x, y)) : x * x + n * (y * y) = p * 2 ^ e := by
+  apply cornacchiaSpecialPrime_sound n p e x y _ h
+  rintro ⟨_, h1⟩; omega
+example : ibzCornacchiaSpecialPrime 3 13 2 = .ok (7, 1) ∧ (3 : Int) % 4 = 3 ∧ ibzCornacchiaSpecialPrime 7 7 1 = .fail := by decide
 
 /-- `ibz_cornacchia_extended`: x² + y² = n for every prime list, every primality oracle (`ibz_probab_prime` is a
     parameter), every `bad_primes_prod`; |n| < 2^B, B ≤ 2^63 so that the int64 valuation counters cannot wrap -/
